@@ -284,10 +284,30 @@ class SympyCondition(Condition):
         # All keys are replaced at once: replacing them one after the other would apply a later
         # replacement to the image of an earlier one (e.g. for the swap {'a': 'b', 'b': 'a'}).
         replacements = {
-            str(k): sympy.Symbol(str(mkp.with_measurement_key_mapping(k, key_map)))
+            sympy.Symbol(str(k)): sympy.Symbol(str(mkp.with_measurement_key_mapping(k, key_map)))
             for k in self.keys
         }
-        return SympyCondition(self.expr.subs(replacements, simultaneous=True))
+        return SympyCondition(self.expr.xreplace(replacements))
+
+    def _with_key_path_prefix_(self, path: tuple[str, ...]) -> cirq.Condition:
+        # Simultaneous for the same reason (the prefixed form of one key may be another key).
+        replacements = {
+            sympy.Symbol(str(k)): sympy.Symbol(str(mkp.with_key_path_prefix(k, path)))
+            for k in self.keys
+        }
+        return SympyCondition(self.expr.xreplace(replacements))
+
+    def _with_rescoped_keys_(
+        self, path: tuple[str, ...], bindable_keys: frozenset[cirq.MeasurementKey]
+    ) -> cirq.Condition:
+        replacements = {}
+        for key in self.keys:
+            for i in range(len(path) + 1):
+                new_key = key.with_key_path_prefix(*path[: len(path) - i])
+                if new_key in bindable_keys:
+                    replacements[sympy.Symbol(str(key))] = sympy.Symbol(str(new_key))
+                    break
+        return SympyCondition(self.expr.xreplace(replacements))
 
     def __str__(self):
         return str(self.expr)
